@@ -7,6 +7,6 @@ LEVEL = "model_checking"
 def run(tier):
     return _common.corpus_property(
         "C06", tier, LEVEL, models=(),
-        need=('empty_final_cluster','vector_beta','limit_reached','converged','multi_series'),
+        need=('empty_final_cluster','vector_beta','limit_reached','converged','multi_series','label_switch_under_unequal_per_pair_beta'),
         rule="""every completed run: per-point values, sums, means, medians, cost quantised into two-limb integers; TLC recomputes every identity; non-trivial = distinct runs with at least one label switch or an empty final cluster""",
         nontrivial=lambda t: (t['hdr']['id'],))
